@@ -41,6 +41,7 @@ def main (args : List String) : IO UInt32 := do
   | ["shape"] => loop stdin stdout Shape.step; return 0
   | ["loader"] => loop stdin stdout Loader.step; return 0
   | ["borrow"] => loop stdin stdout Borrow.step; return 0
+  | ["adv"] => loop stdin stdout Borrow.stepAdv; return 0
   | ["assoc"] => loop stdin stdout Assoc.step; return 0
   | ["lz4io"] => loopIO stdin stdout Lz4.stepIO; return 0
   | _ => IO.eprintln "usage: grdriver <mode>"; return 2
